@@ -11,13 +11,14 @@ pub struct MutexExec<M: RawMutex + 'static> {
     mx: &'static GenericMutex<M, u64>,
     futs: Slots<GenericMutexLockFuture<'static, M, u64>>,
     guards: Vec<GenericMutexGuard<'static, M, u64>>,
+    view: bool,
 }
 
 impl<M: RawMutex + 'static> MutexExec<M> {
     pub fn new(cfg: &[u64]) -> Self {
         let k = cfg[0] as usize;
         let mx = Box::leak(Box::new(GenericMutex::<M, u64>::new(0, cfg[1] != 0)));
-        MutexExec { mx, futs: Slots::new(k), guards: Vec::with_capacity(16) }
+        MutexExec { mx, futs: Slots::new(k), guards: Vec::with_capacity(16), view: false }
     }
 
     fn observe(&self, o: &mut Obs) {
@@ -89,12 +90,18 @@ impl<M: RawMutex + 'static> Exec for MutexExec<M> {
         self.observe(&mut o);
         o
     }
+    fn share(&self) -> Option<Box<dyn Exec>> {
+        Some(Box::new(MutexExec { mx: self.mx, futs: Slots::new(self.futs.len()), guards: Vec::with_capacity(16), view: true }))
+    }
 }
 
 impl<M: RawMutex + 'static> Drop for MutexExec<M> {
     fn drop(&mut self) {
         self.futs.drop_all();
         self.guards.clear();
+        if self.view {
+            return;
+        }
         unsafe { drop(Box::from_raw(self.mx as *const _ as *mut GenericMutex<M, u64>)) };
     }
 }
